@@ -505,6 +505,16 @@ def fused_grid(rng, full=False):
     out.append(_case(rng, [_square(rng, True)], ["bin", "add", ["bin", "mul", ["ones", 0], XT], X], grid="ones*x.T+x"))
     spec = {"api": "da", "bid": True, "binfo": False, "deps": [], "pos": [], "kw": {"gain": 2}, "dkw": None}
     out.append(_case(rng, [s], ["mb", spec, [["bin", "add", ["ones", 0], X]]], post="add1", grid="mb-over-ones"))
+    # an ODD INTERIOR block (not at index 0, n//2, n-1) of a creation op whose size also occurs on the other axis: the fast
+    # records validate block-independence on a sample of blocks plus the first block of every distinct chunk size PER AXIS;
+    # whatever shares that bookkeeping between axes (or members) lets the odd block slip through with block 0's shape
+    for c0, u, n, k, odd in (([2, 2], 3, 8, 3, 2), ([1, 1, 1], 4, 7, 2, 1), ([3, 1], 2, 7, 5, 3), ([3, 1], 2, 7, 1, 1), ([2, 2, 2], 5, 9, 6, 2)):
+        c1 = [u] * n
+        c1[k] = odd
+        for shape, chunks, tag in (([sum(c0), sum(c1)], [c0, c1], "later-axis"), ([sum(c1), sum(c0)], [c1, c0], "earlier-axis")):
+            so = _src(rng, shape, chunks)
+            out.append(_case(rng, [so], ["sc", "mul", ["ones", 0], 2], grid=f"odd-interior/{tag}/ones*2"))
+            out.append(_case(rng, [so], ["bin", "add", X, ["sc", "mul", ["full", 0, 3], 2]], post=(None, "add1")[k % 2], grid=f"odd-interior/{tag}/x+full*2"))
     for j, (depth, boundary) in enumerate(((1, "reflect"), (1, "none"), (1, "periodic"))):
         n = rng.randint(6, 8)
         ch = [n - n // 2, n // 2]
